@@ -76,6 +76,8 @@ type World struct {
 	crashArmed    map[uint64]crashSpec
 	LeadersByTerm map[uint64]uint64
 	Cut           map[[2]uint64]bool
+	// Durable counts the durable writes each node has started so far.
+	Durable map[uint64]int
 }
 
 type Violation struct{ Key, Desc string }
@@ -103,7 +105,7 @@ func NewWorld(n int, newApp func(*Node) App) *World {
 	world.Quiet()
 	fakes.Reset()
 	vrt.ResetContexts()
-	w := &World{S: vrt.New(), GroupID: world.ID(0x61, 0x62), NewApp: newApp, crashArmed: map[uint64]crashSpec{}, LeadersByTerm: map[uint64]uint64{}, Cut: map[[2]uint64]bool{}}
+	w := &World{S: vrt.New(), GroupID: world.ID(0x61, 0x62), NewApp: newApp, crashArmed: map[uint64]crashSpec{}, LeadersByTerm: map[uint64]uint64{}, Cut: map[[2]uint64]bool{}, Durable: map[uint64]int{}}
 	w.S.Horizon = 5000000
 	for i := 1; i <= n; i++ {
 		w.Peers = append(w.Peers, uint64(i))
@@ -111,6 +113,9 @@ func NewWorld(n int, newApp func(*Node) App) *World {
 	}
 	w.S.OnDurable = func(t *vrt.Thread, site string, after bool) bool {
 		id := nodeOf(t.Name)
+		if !after {
+			w.Durable[id]++
+		}
 		c, ok := w.crashArmed[id]
 		if !ok || c.after != after {
 			return false
